@@ -81,13 +81,16 @@ def run_clause(it, fn, fr, extra=None):
 
 
 def havoc_locals(it, fr, node, lc, tag):
-    names = sorted(V_assigned(node.body))
+    names = sorted(V_assigned(node.body) | V_assigned([node.target] if hasattr(node, 'target') else []))
     for nme in names:
         if nme not in fr.locals:
             continue
         shp = lc.havoc.get(nme)
         if shp is None:
-            raise EngineError(f'{fr.name}: loop contract lacks a havoc shape for local {nme!r}')
+            # no shape given: the local counts as unassigned at the loop head (every iteration must
+            # assign it before reading it; reading it first is an engine error, not a guess)
+            fr.locals[nme] = V.UNBOUND
+            continue
         fr.locals[nme] = shp.fresh(it.ctx, f'{tag}_{nme}')
     for pname, shp in lc.havoc_heap.items():
         obj = it.lookup_name(pname.split('.')[0], fr)
@@ -99,6 +102,13 @@ def havoc_locals(it, fr, node, lc, tag):
 def V_assigned(stmts):
     I = _I()
     return I.assigned_names(stmts)
+
+
+def check_body_ensures(it, fr, lc, tag, extra):
+    """Per-iteration postconditions (LoopContract.body_ensures): what one iteration does, stated
+    over the locals at its end and the `entry` snapshot taken at its start."""
+    for name, fn in (lc.body_ensures or {}).items():
+        it.ctx.oblige(f'{tag}.body/{name}', it.truth(run_clause(it, fn, fr, extra)), where=fr.name)
 
 
 def while_with_invariant(it, node, fr, lc, k):
@@ -117,12 +127,16 @@ def while_with_invariant(it, node, fr, lc, k):
         c = it.truth(it.ev(node.test, fr))
         ctx.assume(c)
         v0 = run_clause(it, lc.variant, fr, extra) if lc.variant is not None else None
+        if lc.body_ensures:
+            extra = dict(extra)
+            extra['iter'] = it.models_mod._deepcopy(it, V.SObj(object, dict(fr.locals), frozen=True))
         try:
             it.ex_block(node.body, fr)
         except I.BreakSig:
             return  # leaves the loop with the current state
         except I.ContinueSig:
             pass
+        check_body_ensures(it, fr, lc, tag, extra)
         ctx.oblige(f'{tag}.preserve', it.truth(run_clause(it, lc.invariant, fr, extra)),
                    where=fr.name)
         if lc.variant is not None:
@@ -156,8 +170,8 @@ def exec_for(it, node, fr):
             itv = range(hi)
     if itv is None:
         itv = it.ev(node.iter, fr)
-    from .models import EnumSeq
-    if isinstance(itv, (SSeq, EnumSeq)) or (lc is not None and lc.invariant is not None):
+    from .models import EnumSeq, SRange
+    if isinstance(itv, (SSeq, EnumSeq, SRange)) or (lc is not None and lc.invariant is not None):
         return for_with_invariant(it, node, fr, itv, lc, k)
     items = it.iterate_guarded(itv)
     for g, x in items:
@@ -197,12 +211,17 @@ def for_with_invariant(it, node, fr, seq, lc, k):
         raise EngineError(f'{fr.name}: for loop over a symbolic-length list needs a loop contract '
                           f'(loop {k})')
     tag = f'{fr.name}/loop{k}'
-    from .models import EnumSeq
+    from .models import EnumSeq, SRange
     enum_start = None
     if isinstance(seq, EnumSeq):
         enum_start = seq.start
         seq = seq.seq
-    n = it.models_mod.py_len(it, seq)
+    if isinstance(seq, range):
+        seq = SRange(seq.start, seq.stop, seq.step)
+    if isinstance(seq, SRange):
+        n = seq.length(it)
+    else:
+        n = it.models_mod.py_len(it, seq)
     extra = {'idx': 0, 'seq': seq}
     ctx.oblige(f'{tag}.init', it.truth(run_clause(it, lc.invariant, fr, extra)), where=fr.name)
     choice = ctx.choose(2, tag)
@@ -212,16 +231,19 @@ def for_with_invariant(it, node, fr, seq, lc, k):
         ctx.assume(b_and(it.compare(ast.LtE(), 0, i), it.compare(ast.Lt(), i, n)))
         extra['idx'] = i
         ctx.assume(it.truth(run_clause(it, lc.invariant, fr, extra)))
-        x = it.getitem(seq, i)
+        x = seq.at(it, i) if isinstance(seq, SRange) else it.getitem(seq, i)
         if enum_start is not None:
             x = (it.binop(ast.Add(), i, enum_start), x)
         it.assign(node.target, x, fr)
+        if lc.body_ensures:
+            extra['iter'] = it.models_mod._deepcopy(it, V.SObj(object, dict(fr.locals), frozen=True))
         try:
             it.ex_block(node.body, fr)
         except I.BreakSig:
             return
         except I.ContinueSig:
             pass
+        check_body_ensures(it, fr, lc, tag, extra)
         extra['idx'] = it.binop(ast.Add(), i, 1)
         ctx.oblige(f'{tag}.preserve', it.truth(run_clause(it, lc.invariant, fr, extra)),
                    where=fr.name)
